@@ -475,6 +475,17 @@ func (w *enumWorld) Gen(seed uint64, tier string) *Plan {
 	p.Clients = []string{c.Role}
 	n := []int{3, 6, 12, 25, 50}[r.Intn(5)]
 	id := 0
+	if cfg.Elem != "float" && r.P(1, 30) {
+		// a receiver of several hundred elements (enumerations that work in blocks, results that outgrow a buffer)
+		p.Cfg.Dom = 256
+		cfg = p.Cfg
+		s = makeSubject(cfg, false)
+		op := genFill(r, id, 70, 600)
+		id++
+		s.ModelApply(op)
+		p.Ops = append(p.Ops, op)
+		n = min(n, 12)
+	}
 	for i := 0; i < n; i++ {
 		op := s.GenOp(r, id, c)
 		id++
